@@ -85,3 +85,13 @@ MANIFEST_TEXT['C16'] = dict(
     text='Coq theorems (client endpoint, class S0): after Stop has run to its end no queued call, outstanding request, callback or half-closed channel remains, no stray callback, pump not stuck; Stop/Start injected at random points of histories on all four endpoint kinds, compared with the model; ws-layer Stop is covered with C13/C17.',
     note=M1_NOTE + ' Goroutine leak and blocked synchronous callers are checked by the harness watchdog only.',
     technique='Coq invariant proofs over an LTS + differential correspondence + trace monitors')
+
+PROPS['C08'] = Prop('C08', harness='c08', entries=['c08rt', 'm1c', 'm1c_h', 'm1s'], props_file='theories/Props/C08.v', quick_n=250, thorough_n=4000,
+                    trusted=M1_TRUSTED + ['real-time lane: wall-clock measurements (ms) of writes and cancellations taken inside the ws doubles and the callbacks'],
+                    assumptions=M1_ASSUME + ['real-time lane: a timeout earlier than 6 ms before the deadline counts as early (measurement tolerance); lateness is only checked as "concluded within the observation window (deadline + >= 60 ms)"'],
+                    rule='real-time lane: 5 client + 5 server scenarios x 2 protocol versions on the real timers (timeout 160 ms, random jitter 0-24 ms): plain timeout + next request, reply late in the window, disconnect / reconnect across the deadline, answered-then-idle, staggered deadlines of two clients, session end + reconnect of the same id; the measured timed trace is the input of the Coq monitor. Virtual lane: ' + M1_RULE,
+                    design_ref='5 C08', confirm_slow=True, monitor_prefixes=['C08'], spec_entries=['c08rt'], search_n=1500, harness_timeout=1500)
+MANIFEST_TEXT['C08'] = dict(
+    text='Coq theorems: (a) soundness of the extracted timing monitor: an accepted timed trace has no early timeout (counted from the write, for a client from the later of write and last reconnection), no timeout after a conclusion, at most one conclusion per request; (b) per-state laws of the client timer bookkeeping: dispatch re-arms a full timeout and drops a stale unread expiry, the clock fires only at the deadline, pause parks and resume re-arms; (c) class S0: a timed-out request leaves the queue and the next is written. The monitor is run on measured traces of the real timers (time.Timer / context.WithTimeout) of all four endpoint kinds on every run; expiry is also injected in the virtual-time histories shared with C01.',
+    note=M1_NOTE + ' Timer accuracy, the Go runtime and scheduling delays are outside the model; the server dispatcher\'s stale timerC token (F8) needs a race that the lanes do not force.',
+    technique='Coq-proved trace monitor run on measured real-time traces + per-state timer lemmas + differential correspondence')
